@@ -59,8 +59,10 @@
 (*                             when it raises (the code leaves it True:    *)
 (*                             later acquisitions then see the NOISY       *)
 (*                             predictive variance - other evidence)       *)
-(*   "algorithm_checked_first" sample() rejects an unknown algorithm       *)
-(*                             before it fits (the code fits first)        *)
+(*   "arguments_checked_first" sample() rejects an unknown algorithm and   *)
+(*                             initials of the wrong shape before it fits  *)
+(*                             (the code runs the fit that n_evidence=...  *)
+(*                             asks for first, then refuses)               *)
 (*   "init_scan_checked"       running out of initial points is the        *)
 (*                             documented ValueError (the code raises      *)
 (*                             IndexError when n_chains > evidence, and    *)
@@ -90,7 +92,7 @@
 (***************************************************************************)
 EXTENDS Naturals, Integers, Sequences, FiniteSets, TLC
 
-AllFixes == {"posterior_snapshot", "sampling_flag_reset", "algorithm_checked_first", "init_scan_checked",
+AllFixes == {"posterior_snapshot", "sampling_flag_reset", "arguments_checked_first", "init_scan_checked",
              "empty_result_refused", "warmup_zero", "metropolis_total", "sample_reports_n_sim", "optimise_at_initial"}
 
 \* ------------------------------------------------------------------ helpers
@@ -192,8 +194,9 @@ ExtractPosterior(c, s, a, thr, kept) ==
 
 \* sample(): `warmup = warmup or n_samples // 2`
 Warmup(c, a) == IF a.warm = NoneV \/ (a.warm = 0 /\ "warmup_zero" \notin c.fix) THEN a.ns \div 2 ELSE a.warm
-\* the shape check of user initials, then `self.target_model.is_sampling = True`
-Prepare(c, s, a) == IF a.ini = "shape" THEN Raise(s, "bad_initials_shape") ELSE [s EXCEPT !.smp = TRUE]
+\* the shape check of user initials; `self.target_model.is_sampling = True`
+CheckShape(c, s, a) == IF a.ini = "shape" THEN Raise(s, "bad_initials_shape") ELSE s
+Prepare(c, s, a) == [s EXCEPT !.smp = TRUE]
 \* the choice of one start point per chain among `initials` (default: the evidence points, best first)
 RECURSIVE Scan(_, _, _)
 Scan(fin, pos, need) ==
@@ -227,9 +230,9 @@ FitStages(last) == <<"fit">> \o InferStages \o <<last>>
 Stages(c, a) ==
   CASE a.m = "infer" -> InferStages
     [] a.m = "fit" -> FitStages("extract_posterior")
-    [] a.m = "sample" -> <<"sample">> \o (IF "algorithm_checked_first" \in c.fix THEN <<"check_alg", "maybe_fit">>
-                                           ELSE <<"maybe_fit", "check_alg">>)
-                                      \o <<"extract_posterior", "prepare", "scan", "chains">>
+    [] a.m = "sample" -> IF "arguments_checked_first" \in c.fix
+                         THEN <<"sample", "check_alg", "check_shape", "maybe_fit", "extract_posterior", "prepare", "scan", "chains">>
+                         ELSE <<"sample", "maybe_fit", "check_alg", "extract_posterior", "check_shape", "prepare", "scan", "chains">>
     [] OTHER -> <<a.m>>
 
 \* one stage; `rest` is what remains to be done after it.  Returns <<state, remaining stages>>
@@ -239,6 +242,7 @@ Do(c, s, a, stage, rest) ==
   IN CASE stage = "loop" -> IF Finished(c, s) THEN <<s, rest>> ELSE <<note(Iterate(c, s), "iterate"), <<"loop">> \o rest>>
        [] stage = "maybe_fit" -> IF s.nb = 0 THEN <<s, FitStages("extract_posterior_default") \o rest>> ELSE <<s, rest>>
        [] stage = "check_alg" -> <<IF a.alg \notin {"nuts", "metropolis"} THEN Raise(s, "unknown_sampler") ELSE s, rest>>
+       [] stage = "check_shape" -> <<CheckShape(c, s, a), rest>>
        [] stage = "prepare" -> <<Prepare(c, s, a), rest>>
        [] stage = "scan" -> <<ScanStage(c, s, a), rest>>
        [] stage = "chains" -> <<Chains(c, s, a), rest>>
@@ -371,7 +375,7 @@ SetObjectiveStage == todo # <<>> /\ Head(todo) = "set_objective" /\ StageAct
 ExtractResultStage == todo # <<>> /\ Head(todo) = "extract_result" /\ StageAct
 ExtractPosteriorStage == todo # <<>> /\ Head(todo) \in {"extract_posterior", "extract_posterior_default"} /\ StageAct
 EmbeddedFitStage == todo # <<>> /\ Head(todo) = "maybe_fit" /\ StageAct
-SampleStage == todo # <<>> /\ Head(todo) \in {"check_alg", "prepare", "scan", "chains"} /\ StageAct
+SampleStage == todo # <<>> /\ Head(todo) \in {"check_alg", "check_shape", "prepare", "scan", "chains"} /\ StageAct
 EntryStage == todo # <<>> /\ Head(todo) \in {"fit", "infer", "sample"} /\ StageAct
 \* the call returns (or its exception reaches the caller)
 Return == /\ todo = <<"return">> /\ todo' = <<>> /\ call' = A0 /\ st0' = Trim(Entered(st)) /\ st' = Trim(Entered(st)) /\ UNCHANGED <<env, ncalls>>
